@@ -1338,7 +1338,7 @@ func hRunHistory(t *testing.T, out *vOut, r *rand.Rand, id int) {
 		disturbed = map[string]bool{}
 		// C03: re-processing converged services writes nothing
 		// (at most one normalising write: a status whose addresses are only re-ordered)
-		f22 := false
+		f22, onlyGains := false, true
 		resync := func() (int, bool) {
 			before := map[string][]net.IP{}
 			for _, nm := range w.existing() {
@@ -1351,17 +1351,27 @@ func hRunHistory(t *testing.T, out *vOut, r *rand.Rand, id int) {
 			doReload(-1)
 			sameSets := true
 			for _, nm := range w.existing() {
-				if !sameSet(before[nm], gStatusIPs(w.get(nm))) {
+				if now := gStatusIPs(w.get(nm)); !sameSet(before[nm], now) {
 					sameSets = false
 					sp := w.specs[nm]
-					if want, _ := gParsedWant(sp); sp.Pol == "prefer" && sp.Fam == "dual" && len(want) == 1 {
+					want, _ := gParsedWant(sp)
+					if sp.Pol == "prefer" && sp.Fam == "dual" && len(want) == 1 {
 						f22 = true
+					}
+					// the one change C03 permits: a PreferDualStack Service holding one address gains the missing family
+					// (it can become possible without any re-sync being requested, e.g. a co-tenant's ports were edited: F13b)
+					if !(sp.Pol == "prefer" && sp.Fam == "dual" && len(want) == 0 && len(before[nm]) == 1 && len(now) == 2 && subsetIPs(before[nm], now)) {
+						onlyGains = false
 					}
 				}
 			}
 			return w.writes - writes0, sameSets
 		}
 		nw, same := resync()
+		if nw > 0 && !same && onlyGains {
+			out.Stat("permitted_preferdual_gains_at_resync", 1)
+			nw, same = resync()
+		}
 		if nw > 0 && same {
 			out.Stat("normalising_writes", nw)
 			nw, same = resync()
@@ -1487,6 +1497,64 @@ func hRunHistory(t *testing.T, out *vOut, r *rand.Rand, id int) {
 			checkQuiescent()
 		}
 		out.Stat("directed_mixed_protocol_scenarios", 1)
+	} else if id%8 == 6 {
+		// directed: a PreferDualStack Service first gets one family only (the pool's single IPv6 address is
+		// taken), later gains the other one: it must keep the address it holds (AllocateFromPoolForAdditionalFamily)
+		doPools([]gPool{{Name: "pa", CIDRs: []string{"10.0.0.0/30", "fc00:1::/128"}, Auto: true}})
+		doReload(-1)
+		six := gSpec{LB: true, Fam: "ipv6", ClusterOK: true, Pol: "single", First6: true, Ports: []int{0}}
+		pref := gSpec{LB: true, Fam: "dual", ClusterOK: true, Pol: "prefer", Ports: []int{1}}
+		doPut("ns1/a", six)
+		doSvc("ns1/a", false)
+		lower := r.Intn(2) == 0
+		if lower {
+			// an IPv4 holder that takes the lowest address first and leaves again: the address the
+			// PreferDualStack Service holds is then not the first usable one of its family
+			doPut("ns2/c", gSpec{LB: true, Fam: "ipv4", ClusterOK: true, Pol: "single", Ports: []int{2}})
+			doSvc("ns2/c", false)
+		}
+		doPut("ns1/b", pref)
+		doSvc("ns1/b", false)
+		if drain() {
+			checkQuiescent()
+		}
+		if lower {
+			doDel("ns2/c")
+			if drain() {
+				checkQuiescent()
+			}
+		}
+		doDel("ns1/a")
+		if drain() {
+			checkQuiescent()
+		}
+		out.Stat("directed_additional_family_scenarios", 1)
+	} else if id%8 == 7 {
+		// directed: a dual-stack Service holding the two addresses it asked for edits its request to a
+		// proper subset / superset-by-order of them: "holds exactly the requested addresses" is set equality
+		doPools([]gPool{{Name: "pa", CIDRs: []string{"10.0.0.4/31", "fc00::4/127"}, Auto: true}})
+		doReload(-1)
+		pol := []string{"require", "prefer"}[r.Intn(2)]
+		dual := gSpec{LB: true, Fam: "dual", ClusterOK: true, Pol: pol, Ports: []int{1}, WantKind: "annot", WantIPs: []string{"10.0.0.4", "fc00::4"}}
+		doPut("ns1/a", dual)
+		doSvc("ns1/a", false)
+		if drain() {
+			checkQuiescent()
+		}
+		switch r.Intn(3) {
+		case 0:
+			dual.WantIPs = []string{"10.0.0.4"}
+		case 1:
+			dual.WantIPs = []string{"fc00::4"}
+		default:
+			dual.WantIPs = []string{"fc00::4", "10.0.0.4"} // same set, other order: nothing may change
+		}
+		doPut("ns1/a", dual)
+		doSvc("ns1/a", false)
+		if drain() {
+			checkQuiescent()
+		}
+		out.Stat("directed_requested_subset_scenarios", 1)
 	} else {
 		doPools(gGenPools(r))
 	}
